@@ -160,6 +160,9 @@ func (g *Gen) call(in ssa.Instruction, c *ssa.CallCommon, res ssa.Value) {
 		g.builtin(in, b, c, res)
 		return
 	}
+	if g.errorsBuiltin(in, c, res) {
+		return
+	}
 	ce := g.resolveCallee(c)
 	var results []string
 	if ce.spec == nil && ce.bindings == nil && g.inlinable(ce.fn) {
@@ -972,4 +975,50 @@ func (g *Gen) dispatchRefine(ce *callee, pre, post *State, results []string, pos
 			}
 		}
 	}
+}
+
+
+// errorsBuiltin gives errors.As(err, &target) and errors.Is(err, sentinel) their class semantics (assumed semantics of
+// package errors, the same reading the `iserr(e, *T)` / `iserr(e, sentinel)` clauses of the contracts have):
+// As with a target of static type **T answers errclass(err, *T) and may set the target; Is against a package-level
+// sentinel of the module answers errclass(err, sentinel).
+func (g *Gen) errorsBuiltin(in ssa.Instruction, c *ssa.CallCommon, res ssa.Value) bool {
+	fn := c.StaticCallee()
+	if fn == nil || c.IsInvoke() || fn.Pkg == nil || fn.Pkg.Pkg.Path() != "errors" || res == nil || len(c.Args) != 2 {
+		return false
+	}
+	switch fn.Name() {
+	case "As":
+		mi, ok := c.Args[1].(*ssa.MakeInterface)
+		if !ok {
+			return false
+		}
+		pt, ok := mi.X.Type().Underlying().(*types.Pointer)
+		if !ok {
+			return false
+		}
+		if _, ok := pt.Elem().Underlying().(*types.Pointer); !ok {
+			return false
+		}
+		g.errorClasses()
+		g.defineVal(res, app("errclass", g.val(c.Args[0]), fmt.Sprint(g.typeID(pt.Elem()))))
+		// the target variable receives the matching error (unknown pointer)
+		nv := g.freshConst("astarget", "Ptr")
+		g.assumePC(g.wellFormed(nv, pt.Elem(), g.cur.Alloc))
+		g.storeCell(g.cur, g.val(mi.X), "Ptr", nv)
+		return true
+	case "Is":
+		u, ok := c.Args[1].(*ssa.UnOp)
+		if !ok || u.Op != token.MUL {
+			return false
+		}
+		gl, ok := u.X.(*ssa.Global)
+		if !ok || !strings.HasPrefix(gl.Name(), "err") {
+			return false
+		}
+		g.errorClasses()
+		g.defineVal(res, app("errclass", g.val(c.Args[0]), g.sentinelClass(gl)))
+		return true
+	}
+	return false
 }
